@@ -82,3 +82,10 @@ func init() {
 			"batch, err := a.readTable(true, true, ref)", "batch, err := a.readTable(true, a.partialsOut, ref)", "C10-S4", "spillTable -> readTable"},
 	)
 }
+
+func init() {
+	addMutants(
+		Mutant{"C08", "c08-tail-keeps-key-exprs", "compiler/optimizer/parallelize.go", "Optimizer.liftIntoParPaths",
+			"for k := range op.Keys {\n\t\t\top.Keys[k].RHS = op.Keys[k].LHS\n\t\t}\n", "", "C08-D4", "summarize tail keys"},
+	)
+}
